@@ -36,11 +36,29 @@ ASSUMPTIONS = [
     "reference decision for datagram sequences and the independent acceptability predicate (wire walker) in this file",
     "virtual clock: dns.query.time / dns.asyncquery.time; readiness is scripted through dns.query._wait_for and the socket stand-ins",
 ]
-REQUIRED = ["mon.udp_sync", "mon.udp_async", "mon.returned_is_acceptable", "mon.tcp_reassembly", "mon.tcp_eof_positions", "mon.tcp_write_framing", "mon.tcp_async"]
+REQUIRED = ["mon.tcp_deadline", "mon.udp_sync", "mon.udp_async", "mon.returned_is_acceptable", "mon.tcp_reassembly", "mon.tcp_eof_positions", "mon.tcp_write_framing", "mon.tcp_async"]
 BUDGET = {"quick": 45.0, "thorough": 480.0}
 
 DEST = ("192.0.2.53", 53)
-CATS = ["forged_addr", "forged_port", "wrong_id", "wrong_question", "extra_question", "empty_question_noerror", "wrong_opcode", "qr_clear", "garbage", "garbage_tc", "genuine_tc", "genuine_trailing", "genuine_malformed_tail",
+WHERE = DEST[0]
+FAMILY = socket.AF_INET
+# (text given to the query function, address tuple the socket layer reports for that peer, family, another host, same address in another scope)
+DESTS = [
+    ("192.0.2.53", ("192.0.2.53", 53), socket.AF_INET, ("198.51.100.7", 53), None),
+    ("2001:db8::53", ("2001:db8::53", 53, 0, 0), socket.AF_INET6, ("2001:db8::54", 53, 0, 0), None),
+    ("fe80::1%2", ("fe80::1", 53, 0, 2), socket.AF_INET6, ("fe80::2", 53, 0, 2), ("fe80::1", 53, 0, 3)),
+]
+OTHER_HOST = ("198.51.100.7", 53)
+OTHER_SCOPE = None
+
+
+def choose_destination(rng):
+    """rebinds the module-level peer description used by the datagram builders and the scripted sockets"""
+    global DEST, WHERE, FAMILY, OTHER_HOST, OTHER_SCOPE
+    WHERE, DEST, FAMILY, OTHER_HOST, OTHER_SCOPE = rng.choice((DESTS[0], DESTS[0], DESTS[1], DESTS[2], DESTS[2]))
+
+
+CATS = ["forged_addr", "forged_port", "forged_scope", "genuine_tc_short", "wrong_id", "wrong_question", "extra_question", "empty_question_noerror", "wrong_opcode", "qr_clear", "garbage", "garbage_tc", "genuine_tc", "genuine_trailing", "genuine_malformed_tail",
         "servfail_noq", "genuine", "genuine", "block"]
 
 
@@ -92,9 +110,17 @@ def datagram(cat, q, rng):
     if cat == "genuine":
         return response_wire(q, rng), DEST
     if cat == "forged_addr":
-        return response_wire(q, rng), ("198.51.100.7", 53)
+        return response_wire(q, rng), OTHER_HOST
     if cat == "forged_port":
-        return response_wire(q, rng), (DEST[0], 5353)
+        return response_wire(q, rng), (DEST[0], 5353) + tuple(DEST[2:])
+    if cat == "forged_scope":
+        # the same link-local address on another link is another host (only meaningful for a scoped destination)
+        return response_wire(q, rng), (OTHER_SCOPE or OTHER_HOST)
+    if cat == "genuine_tc_short":
+        # the genuine reply, TC set, cut after the header or inside the question: all a receiver can tell is "truncated"
+        w = response_wire(q, rng, answers=False, tc=True)
+        qend = 12 + RN.wire_len(WW.walk(w)["questions"][0][0]) + 4
+        return w[:rng.choice((12, 13, qend - 5, qend - 1))] + b"", DEST
     if cat == "wrong_id":
         w = bytearray(response_wire(q, rng))
         w[0:2] = struct.pack("!H", (q.id + rng.randint(1, 65535)) % 65536)
@@ -168,7 +194,7 @@ def reference_udp(cats, opts):
             continue
         if cat == "expire":
             return ("timeout",)
-        if cat in ("forged_addr", "forged_port"):
+        if cat in ("forged_addr", "forged_port", "forged_scope"):
             if opts["ignore_unexpected"]:
                 continue
             return ("raise", "UnexpectedSource")
@@ -177,7 +203,9 @@ def reference_udp(cats, opts):
         is_resp = cat in ("genuine", "genuine_tc", "genuine_trailing", "genuine_malformed_tail", "servfail_noq")
         if cat == "garbage":
             err = "FormError"
-        elif cat == "garbage_tc":
+        elif cat in ("garbage_tc", "genuine_tc_short"):
+            # (a cut inside the question leaves nothing to match the query with: reported as truncation when asked and errors
+            # are not ignored, skipped when they are)
             err = "Truncated" if opts["raise_on_truncation"] else "FormError"
         elif cat == "genuine_trailing" and not opts["ignore_trailing"]:
             err = "FormError"
@@ -207,6 +235,7 @@ class FakeUDPSocket:
     type = socket.SOCK_DGRAM
 
     def __init__(self, events):
+        self.family = FAMILY
         self.events = list(events)  # ('dgram', wire, from) | ('block',) | ('expire',)
         self.sent = []
         self.waits = 0
@@ -312,7 +341,7 @@ class FakeStream:
 
 class AsyncUDP(dns.asyncbackend.DatagramSocket):
     def __init__(self, fake):
-        super().__init__(socket.AF_INET, socket.SOCK_DGRAM)
+        super().__init__(fake.family, socket.SOCK_DGRAM)
         self.fake = fake
 
     async def sendto(self, what, destination, timeout):
@@ -377,6 +406,7 @@ def run_async(coro):
 
 def check_udp(ctx, rng, is_async, cats=None, opts=None):
     ctx.count("evaluations")
+    choose_destination(rng)
     q = make_query(rng)
     qwire = q.to_wire()
     if cats is None:
@@ -400,15 +430,15 @@ def check_udp(ctx, rng, is_async, cats=None, opts=None):
     clock = Clock()
     want = reference_udp(cats, opts)
     mode = "async" if is_async else "sync"
-    case = {"kind": "udp", "mode": mode, "cats": cats, "opts": opts, "query": qwire}
+    case = {"kind": "udp", "mode": mode, "cats": cats, "opts": opts, "query": qwire, "where": WHERE}
     ctx.count("mon.udp_async" if is_async else "mon.udp_sync")
     got = None
     try:
         with swap_attr(dns.query, "time", clock), swap_attr(dns.query, "_wait_for", scripted_wait_for), swap_attr(dns.asyncquery, "time", clock):
             if is_async:
-                r = run_async(dns.asyncquery.udp(q, DEST[0], timeout=5, port=DEST[1], sock=AsyncUDP(fake), **opts))
+                r = run_async(dns.asyncquery.udp(q, WHERE, timeout=5, port=DEST[1], sock=AsyncUDP(fake), **opts))
             else:
-                r = dns.query.udp(q, DEST[0], timeout=5, port=DEST[1], sock=fake, **opts)
+                r = dns.query.udp(q, WHERE, timeout=5, port=DEST[1], sock=fake, **opts)
         got = ("return", r)
     except dns.exception.Timeout:
         got = ("timeout",)
@@ -423,7 +453,7 @@ def check_udp(ctx, rng, is_async, cats=None, opts=None):
     except Exception as e:
         ctx.violation(f"udp-exchange-raised-foreign:{mode}:" + core.exc_sig(e), repr(e), case)
         return
-    ctx.seen(("udp", mode, tuple(sorted(k for k, v in opts.items() if v)), tuple(cats[:3]), got[0], want[0]))
+    ctx.seen(("udp", mode, WHERE, tuple(sorted(k for k, v in opts.items() if v)), tuple(cats[:3]), got[0], want[0]))
     if got[0] == "return":
         r = got[1]
         rw = getattr(r, "wire", None)
@@ -441,7 +471,7 @@ def check_udp(ctx, rng, is_async, cats=None, opts=None):
         if frm != DEST:
             ctx.violation(f"returned-message-from-unexpected-source:{mode}:{cats[idx]}", f"{frm}", case)
             return
-        if cats[idx] in ("garbage", "garbage_tc", "genuine_malformed_tail", "wrong_id", "wrong_question", "extra_question", "empty_question_noerror", "wrong_opcode", "qr_clear") or (cats[idx] == "genuine_trailing" and not opts["ignore_trailing"]):
+        if cats[idx] in ("garbage", "garbage_tc", "genuine_tc_short", "genuine_malformed_tail", "wrong_id", "wrong_question", "extra_question", "empty_question_noerror", "wrong_opcode", "qr_clear") or (cats[idx] == "genuine_trailing" and not opts["ignore_trailing"]):
             ctx.violation(f"malformed-or-mismatched-datagram-returned:{mode}:{cats[idx]}:{'ignore_errors' if opts['ignore_errors'] else 'strict'}", f"cats {cats} opts {opts}; message errors {getattr(r, 'errors', None)}", case)
             return
         if cats[idx] == "genuine_tc" and opts["raise_on_truncation"]:
@@ -454,7 +484,7 @@ def check_udp(ctx, rng, is_async, cats=None, opts=None):
         w = want if want[0] != "return" else ("return", cats[want[1]])
         ctx.violation(f"udp-outcome-differs-from-reference:{mode}:{got}-expected-{w}", f"cats {cats} opts {opts}", case)
     # the query that went out is exactly the rendered query, to the queried address
-    if not fake.sent or fake.sent[0][0] != qwire or (fake.sent[0][1] is not None and tuple(fake.sent[0][1][:2]) != DEST):
+    if not fake.sent or fake.sent[0][0] != qwire or (fake.sent[0][1] is not None and tuple(fake.sent[0][1][:2]) != tuple(DEST[:2])):
         ctx.violation(f"udp-query-not-sent-as-rendered:{mode}", f"{fake.sent[:1]}", case)
 
 
@@ -584,6 +614,73 @@ def check_tcp(ctx, rng, is_async):
             return
 
 
+def check_tcp_deadline(ctx, rng, is_async):
+    """a reply that trickles in: every fragment arrives after a scripted delay on a virtual clock.  The exchange has one
+    absolute deadline; no single read may be allowed to run past it, and a reply that completes after it is an error"""
+    ctx.count("evaluations")
+    ctx.count("mon.tcp_deadline")
+    q = make_query(rng)
+    rw = response_wire(q, rng)
+    single = struct.pack("!H", len(rw)) + rw
+    n = rng.randint(2, 10)
+    cuts = sorted(rng.sample(range(1, len(single)), n - 1))
+    parts = [b - a for a, b in zip([0] + cuts, cuts + [len(single)])]
+    delays = [rng.choice((0.0, 0.0, 0.13, 0.61, 1.57, 3.1)) for _ in parts]
+    clock = Clock()
+    deadline = clock.now + 5
+    mode = "async" if is_async else "sync"
+    case = {"kind": "tcp-deadline", "mode": mode, "parts": parts, "delays": delays}
+    allowed = []  # (now, latest moment the read was allowed to run to)
+    fake = FakeStream(single, list(parts), set(range(len(parts) + 4)))  # every recv would-block first, so a wait precedes it
+    pending = list(delays)
+
+    def timed_wait_for(fd, readable, writable, _, expiration):
+        d = pending.pop(0) if (readable and pending) else 0.0
+        allowed.append((clock.now, expiration))
+        if expiration is not None and clock.now + d > expiration:
+            clock.now = max(clock.now, expiration)
+            raise dns.exception.Timeout
+        clock.now += d
+
+    class TimedAsyncStream(AsyncStream):
+        async def recv(self, size, timeout):
+            d = pending.pop(0) if pending else 0.0
+            allowed.append((clock.now, None if timeout is None else clock.now + timeout))
+            if timeout is not None and d > timeout:
+                clock.now += timeout
+                raise dns.exception.Timeout
+            clock.now += d
+            fake.blocked_once.add(fake.recv_calls)
+            return fake.recv(size)
+
+    try:
+        with swap_attr(dns.query, "time", clock), swap_attr(dns.query, "_wait_for", timed_wait_for), swap_attr(dns.asyncquery, "time", clock):
+            if is_async:
+                r = run_async(dns.asyncquery.tcp(q, DEST[0], timeout=5, sock=TimedAsyncStream(fake)))
+            else:
+                r = dns.query.tcp(q, DEST[0], timeout=5, sock=fake)
+        got = "return"
+    except dns.exception.Timeout:
+        got = "timeout"
+    except Exception as e:
+        ctx.violation(f"tcp-deadline-case-raised:{mode}:" + core.exc_sig(e), repr(e), case)
+        return
+    total = 0.0
+    want = "return"
+    for d in delays:
+        total += d
+        if total > 5:
+            want = "timeout"
+            break
+    ctx.seen(("tcp-deadline", mode, got, want, len(parts)))
+    late = [(now, until) for now, until in allowed if until is None or until > deadline + 1e-6]
+    if late:
+        ctx.violation(f"stream-read-allowed-to-run-past-the-deadline:{mode}", f"deadline {deadline}: reads allowed until {[u for _, u in late][:4]}", case)
+        return
+    if got != want:
+        ctx.violation(f"tcp-deadline-outcome:{mode}:{got}-expected-{want}", f"delays {delays} (sum {sum(delays):.2f}) clock at end {clock.now - (deadline - 5):.2f}", case)
+
+
 def run(spec, ctx):
     rng = ctx.rng
     # exhaustive over option combinations x single-category preludes before the genuine reply
@@ -608,6 +705,8 @@ def run(spec, ctx):
         if ctx.expired(1.0):
             break
         check_tcp(ctx, rng, is_async=(i % 3 == 2))
+        for j in range(8):
+            check_tcp_deadline(ctx, rng, is_async=(j % 2 == 1))
     if ctx.shard == 0:
         ctx.sample({"datagram_categories": CATS, "destination": DEST})
 
